@@ -545,8 +545,16 @@ class Judge:
         n_new = sum(1 for d in P2f if d["code"] == code and d["desc"] == desc)
         if n_new >= n_old:
             sig = "diagnostic-still-reported"
-            if code in ASYNQ_MERGE and nested_yield_on_lines(old_text, dels):
-                sig = "nested-yield-hoisted-first:diagnostic-still-reported"
+            if code in ASYNQ_MERGE:
+                # the yield-batching fix works in steps: the first application may only hoist a nested
+                # yield into its own assignment, or move a yield next to the one it will be merged
+                # with; recognised by: every (name <- task) binding and every other statement preserved
+                try:
+                    pure_move = yield_merge_preserved(old_text, new_text) is None
+                except SyntaxError:
+                    pure_move = False
+                if nested_yield_on_lines(old_text, dels) or pure_move:
+                    sig = "multi-step-batching:diagnostic-still-reported"
             self.add("S3", step, "autofix:%s:%s" % (code, sig), "%s: %r still reported %d time(s) after its fix was applied" % (name, desc, n_new),
                      file=name, before=old_text, after=new_text)
             return
@@ -572,8 +580,9 @@ class Judge:
         for d in P2f:
             if d["line"] is None or d["line"] < region_start or d["line"] >= region_start + len(adds):
                 got[dkey(d)] += 1
-        if code in ASYNQ_MERGE:
-            # batching yields legitimately rewords the neighbouring yield diagnostics
+        if code in ASYNQ_MERGE or code in ASYNQ_WRAP:
+            # batching yields, or adding one, legitimately changes the neighbouring yield-batching
+            # diagnostics (they are about which yields could be combined)
             expect = collections.Counter({k: v for k, v in expect.items() if k[3] not in ASYNQ_MERGE})
             got = collections.Counter({k: v for k, v in got.items() if k[3] not in ASYNQ_MERGE})
         if expect != got:
